@@ -72,10 +72,21 @@ def run(res, tier):
 
         def under_race(args, name):
             e = os.path.join(tmp, name + ".race.err")
+            hung = False
             with open(e, "w") as ef:
-                pr = subprocess.run([vrace] + args, stdout=subprocess.PIPE, stderr=ef, text=True, timeout=3000,
-                                    env=dict(os.environ, GORACE="halt_on_error=0 exitcode=0"))
+                try:
+                    pr = subprocess.run([vrace] + args, stdout=subprocess.PIPE, stderr=ef, text=True, timeout=600,
+                                        env=dict(os.environ, GORACE="halt_on_error=0 exitcode=0"))
+                except subprocess.TimeoutExpired:
+                    # a driver that does not come to an end (a scenario waits for something the code under test never does):
+                    # what the detector reported until then still counts; without any report the run is inconclusive
+                    hung = True
             txt = open(e).read()
+            if hung:
+                if "DATA RACE" not in txt:
+                    raise Inconclusive(f"{name} under -race did not finish within 600 s and reported no race")
+                runs.append(name + " (did not finish)")
+                return race_reports(txt)
             if pr.returncode != 0 and "DATA RACE" not in txt:
                 rcr = repo_crash(txt)
                 if rcr:
